@@ -51,7 +51,7 @@ CHECKS = {
     design="5/C19"),
  "C20": dict(
     text="NdArray.tla models an array object and a copy of it under resize / element write / copy / assign (both directions) with the kind described by what it may hold (dimension rule, element-count rule, constant shape, clipped bounds); TLC checks consistency, 'a refused resize changes nothing' and 'a write touches one element of one object' and exports one history per explored transition; the driver replays them on 12 ndarray_t shape x buffer kinds x both layouts and TraceNdArray.tla validates return value, shape, dim, size, every element by logical index and buffer-is-a-permutation after every action; seeded histories likewise.",
-    note="Trusted: TLC, NdArray.tla, drv_ndarray.cpp. The machine runs over 12 ndarray_t kinds x 2 layouts and the legacy fixed/hybrid/dynamic classes with element-type and kind casts as observation actions; mutable views (flatten/reshape/slice/ref) are validated by write-through position events against the reference views (Denote mutable_write). Casts to the 15 kind tags are in the C09 kinds matrix. One configuration (clipped shape, column-major) is a known finding; ndarray_t::resize and mutable_slice defects were repaired by fix: commits.",
+    note="Trusted: TLC, NdArray.tla, drv_ndarray.cpp. The machine runs over 12 ndarray_t kinds x 2 layouts and the legacy fixed/hybrid/dynamic classes with element-type and kind casts as observation actions; mutable views (flatten/reshape/slice/ref) are validated by write-through position events against the reference views (Denote mutable_write). Casts to the 15 kind tags are in the C09 kinds matrix. ndarray_t::resize, mutable_slice and the clipped-shape column-major addressing (common type of clipped integers) were repaired by fix: commits.",
     technique="TLA+ state machine; TLC exhaustive exploration + transition-tour export; replay on real objects; trace validation by TLC",
     design="5/C20"),
  "C18": dict(
